@@ -32,6 +32,9 @@ EXPLANATION = "every graph view has `ensures` against one definition of edge(); 
 
 
 def run(run):
+    from props._std import run_lean
+
+    run_lean(run)
     run.prove(PROVE)
     from bounded import C13 as B
 
